@@ -30,7 +30,7 @@ FS_SET = 'mkdir,openat,write,close,unlink,unlinkat,rmdir,rename'
 SQL_SET = 'openat,write,pwrite64,fdatasync,fsync,ftruncate,unlink,unlinkat,rename,close'
 ALL_BACKENDS = ['file', 'dir', 'sql-file', 'file-json', 'dir-json', 'file-py', 'dir-py', 'dir-fast', 'dir-compressed']
 # the deviations that describe the code as it is now (kept in step with the fix: commits; see DESIGN.md)
-CURRENT_DIR = {'dir_remove_then_rename', 'asdict_keyerror_escapes'}
+CURRENT_DIR = {'asdict_keyerror_escapes'}
 CURRENT_FILE = {'file_open_rewrites', 'file_items_rereads'}
 CURRENT_SQL = {'items_select_per_key'}
 
